@@ -487,6 +487,17 @@ Proof.
 Qed.
 
 End Estimate.
+
+(* the row hypothesis of the theorems above follows from the usual well-formedness: every factor row has R entries, subscripts in range *)
+Lemma hrow_of_wf (As : list mat) (R : nat) (subs : list idx) :
+  Forall (fun A : mat => Forall (fun row => length row = R) A) As ->
+  (forall k s, k < length As -> s < length subs -> nth k (nth s subs []) 0 < length (nth k As [])) ->
+  forall k s, k < length As -> s < length subs -> length (nth (nth k (nth s subs []) 0) (nth k As []) []) = R.
+Proof.
+  intros HF HR k s Hk Hs. rewrite Forall_forall in HF. pose proof (HF (nth k As []) (nth_In _ _ Hk)) as H1.
+  rewrite Forall_forall in H1. apply H1. apply nth_In. now apply HR.
+Qed.
+
 End EstLine.
 
 (* ---- Z instances evaluated by the correspondence stream next to the hand models (ops estimate / estimate_full) -------------- *)
